@@ -42,6 +42,8 @@ def to_term(x):
     """Lift a python/numpy number exactly to a z3 Real (or Int) term."""
     if isinstance(x, SymReal):
         return x.t
+    if isinstance(x, z3.ExprRef):
+        return x
     if isinstance(x, SymBool):
         return z3.If(x.t, z3.RealVal(1), z3.RealVal(0))
     if isinstance(x, bool):
